@@ -178,6 +178,90 @@ static void one_case(op_t op, int level, MODULE_TYPE mt, int native, uint64_t N,
   case_end(rs >= 1 && (ar == 0 || as >= 1 || bs >= 1));
 }
 
+// aliased forms: res is the very same buffer as a (or b); the per-limb definition must still hold, including
+// zero-extension when res_size exceeds the aliased operand's limb count (the buffer then holds stale limbs)
+static void alias_case(op_t op, MODULE_TYPE mt, int native, uint64_t N, uint64_t rs, uint64_t as, uint64_t bs, int alias_b, unsigned slc, unsigned rep) {
+  const int ar = op_arity(op);
+  if (ar == 0 || (alias_b && ar < 2)) return;
+  if (alias_b ? b_is_big(op) != op_is_big(op) : a_is_big(op) != op_is_big(op)) return;  // the aliased operand must have res's layout
+  char key[160];
+  snprintf(key, sizeof key, "%s(res==%s)|%s%s%s", op_name[op], alias_b ? "b" : "a", rs > (alias_b ? bs : as) ? "res>aliased" : (rs == (alias_b ? bs : as) ? "res=aliased" : "res<aliased"), mt == NTT120 ? ",ntt120" : "", native ? "" : ",generic");
+  if (!case_begin(key, "N=%" PRIu64 " res=%" PRIu64 " a=%" PRIu64 " b=%" PRIu64 " sl=%u rep=%u", N, rs, as, bs, slc, rep)) return;
+  rng_t* r = crng();
+  const MODULE* mod = get_module(N, mt, native);
+  const uint64_t sl = op_is_big(op) ? N : stride_choice(N, slc);
+  const uint64_t xs = alias_b ? bs : as;                // limbs of the aliased operand
+  const uint64_t lim = rs > xs ? rs : xs;
+  const uint64_t osz = alias_b ? as : bs;               // the other operand
+  const uint64_t osl = (alias_b ? a_is_big(op) : b_is_big(op)) ? N : stride_choice(N, slc + 1);
+  zvec_t X, O;
+  zvec_alloc(&X, N, lim, sl, 8 * (rep % 8));
+  zvec_alloc(&O, N, ar == 2 ? osz : 0, osl, 8 * ((rep + 3) % 8));
+  int64_t* x0 = malloc((lim ? lim : 1) * N * 8);
+  for (uint64_t l = 0; l < lim; l++)
+    for (uint64_t i = 0; i < N; i++) x0[l * N + i] = zvec_limb(&X, l)[i] = rng_sbits(r, 61);
+  for (uint64_t l = 0; l < O.size; l++)
+    for (uint64_t i = 0; i < N; i++) zvec_limb(&O, l)[i] = rng_sbits(r, 61);
+  int64_t p = rng_sbits(r, 1 + (unsigned)rng_range(r, 0, 61));
+  if (op == OP_AUTO || op == OP_BIG_AUTO) p |= 1;
+  snap_t so;
+  zvec_snap(&so, &O);
+  const int64_t *A = alias_b ? O.p : X.p, *Bp = alias_b ? X.p : O.p;
+  const uint64_t asl = alias_b ? O.sl : X.sl, bsl = alias_b ? X.sl : O.sl;
+  VEC_ZNX_BIG* RB = (VEC_ZNX_BIG*)X.p;
+  switch (op) {
+    case OP_COPY: vec_znx_copy(mod, X.p, rs, sl, A, as, asl); break;
+    case OP_NEGATE: vec_znx_negate(mod, X.p, rs, sl, A, as, asl); break;
+    case OP_ADD: vec_znx_add(mod, X.p, rs, sl, A, as, asl, Bp, bs, bsl); break;
+    case OP_SUB: vec_znx_sub(mod, X.p, rs, sl, A, as, asl, Bp, bs, bsl); break;
+    case OP_ROTATE: vec_znx_rotate(mod, p, X.p, rs, sl, A, as, asl); break;
+    case OP_AUTO: vec_znx_automorphism(mod, p, X.p, rs, sl, A, as, asl); break;
+    case OP_BIG_ADD: vec_znx_big_add(mod, RB, rs, (const VEC_ZNX_BIG*)A, as, (const VEC_ZNX_BIG*)Bp, bs); break;
+    case OP_BIG_ADD_SMALL: vec_znx_big_add_small(mod, RB, rs, (const VEC_ZNX_BIG*)A, as, Bp, bs, bsl); break;
+    case OP_BIG_SUB: vec_znx_big_sub(mod, RB, rs, (const VEC_ZNX_BIG*)A, as, (const VEC_ZNX_BIG*)Bp, bs); break;
+    case OP_BIG_SUB_SMALL_A: vec_znx_big_sub_small_a(mod, RB, rs, A, as, asl, (const VEC_ZNX_BIG*)Bp, bs); break;
+    case OP_BIG_SUB_SMALL_B: vec_znx_big_sub_small_b(mod, RB, rs, (const VEC_ZNX_BIG*)A, as, Bp, bs, bsl); break;
+    case OP_BIG_ROTATE: vec_znx_big_rotate(mod, p, RB, rs, (const VEC_ZNX_BIG*)A, as); break;
+    case OP_BIG_AUTO: vec_znx_big_automorphism(mod, p, RB, rs, (const VEC_ZNX_BIG*)A, as); break;
+    default: break;
+  }
+  int64_t* za = calloc(N, 8);
+  int64_t* tmp = malloc(N * 8);
+  uint64_t nbad = 0;
+  for (uint64_t l = 0; l < rs; l++) {
+    const int64_t* xl = l < xs ? x0 + l * N : za;                       // aliased operand (original content)
+    const int64_t* ol = (ar == 2 && l < O.size) ? zvec_limb(&O, l) : za;  // other operand
+    const int64_t* al = alias_b ? ol : xl;
+    const int64_t* bl = alias_b ? xl : ol;
+    switch (op) {
+      case OP_COPY: memcpy(tmp, al, N * 8); break;
+      case OP_NEGATE: for (uint64_t i = 0; i < N; i++) tmp[i] = -al[i]; break;
+      case OP_ROTATE: case OP_BIG_ROTATE: ring_map(N, 0, p, al, tmp); break;
+      case OP_AUTO: case OP_BIG_AUTO: ring_map(N, 1, p, al, tmp); break;
+      default:
+        if (op_is_sub(op)) for (uint64_t i = 0; i < N; i++) tmp[i] = al[i] - bl[i];
+        else for (uint64_t i = 0; i < N; i++) tmp[i] = al[i] + bl[i];
+    }
+    for (uint64_t i = 0; i < N; i++)
+      if (zvec_limb(&X, l)[i] != tmp[i] && nbad++ < 2)
+        viol("oracle", "%s with res == %s: limb %" PRIu64 " coeff %" PRIu64 ": got %" PRId64 " want %" PRId64 " (res=%" PRIu64 " a=%" PRIu64 " b=%" PRIu64 " N=%" PRIu64 ")", op_name[op], alias_b ? "b" : "a", l, i, zvec_limb(&X, l)[i], tmp[i], rs, as, bs, N);
+  }
+  // limbs of the buffer beyond res_size keep their content
+  for (uint64_t l = rs; l < lim; l++)
+    if (memcmp(zvec_limb(&X, l), x0 + l * N, N * 8)) viol("canary", "%s with res == %s modified limb %" PRIu64 " >= res_size=%" PRIu64, op_name[op], alias_b ? "b" : "a", l, rs);
+  char msg[200];
+  long d;
+  if ((d = zvec_snap_cmp_free(&so, &O)) >= 0) viol("snapshot", "%s (aliased) modified its other input at byte %ld", op_name[op], d);
+  if (zvec_check(&X, msg, sizeof msg) || zvec_check(&O, msg, sizeof msg)) viol("canary", "%s (aliased): %s", op_name[op], msg);
+  cnt("aliased_calls", 1);
+  cnt("limbs_compared", rs);
+  sample("aliased call matches the per-limb definition on %" PRIu64 " limbs", rs);
+  free(za); free(tmp); free(x0);
+  zvec_free(&X);
+  zvec_free(&O);
+  case_end(rs >= 1);
+}
+
 void run_C08(void) {
   const int th = G.thorough;
   unsigned ctr = 0;
@@ -193,6 +277,24 @@ void run_C08(void) {
             for (uint64_t bs = 0; bs <= (ar >= 2 ? 4u : 0u); bs++, ctr++)
               one_case(op, level, FFT64, 1, kN[ni], rs, as, bs, ctr % 4, (ctr / 4) % 4, (ctr / 16) % 4, (int)(ctr & 1), 0);
       }
+  // aliased forms (the suite only aliases with equal sizes): all size combinations on small N, sampled above
+  for (size_t ni = 0; ni < N_ALL_N; ni++) {
+    const uint64_t N = ALL_N[ni];
+    for (op_t op = OP_COPY; op < N_OPS; op++)
+      for (int cfg = 0; cfg < 3; cfg++) {
+        if (cfg == 2 && op_is_big(op)) continue;
+        for (int alias_b = 0; alias_b <= 1; alias_b++)
+          for (uint64_t rs = 0; rs <= 3; rs++)
+            for (uint64_t as = 0; as <= 3; as++)
+              for (uint64_t bs = 0; bs <= (op_arity(op) == 2 ? 3u : 0u); bs++) {
+                ctr++;
+                uint64_t h = mix64(ctr * 131 + op);
+                if (N > 16 && (h % (th ? (N <= 1024 ? 4 : 20) : (N <= 1024 ? 16 : 80)))) continue;
+                if (N <= 16 && !th && cfg && (h & 1)) continue;
+                alias_case(op, cfg == 2 ? NTT120 : FFT64, cfg != 1, N, rs, as, bs, alias_b, (unsigned)(h >> 8) % 4, 0);
+              }
+      }
+  }
   // module level
   for (size_t ni = 0; ni < N_ALL_N; ni++) {
     const uint64_t N = ALL_N[ni];
